@@ -9,3 +9,5 @@ pub mod stubs;
 mod c18;
 #[cfg(kani)]
 mod c02;
+#[cfg(kani)]
+mod c17;
